@@ -289,9 +289,6 @@ func And(fg *FunctionGenerator) OperationMatrix {
 	m.Register(BoolTypeId, BoolTypeId, func(st funcGen.Stack[Value], a, b Value) (Value, error) {
 		return a.(Bool) && b.(Bool), nil
 	})
-	m.Register(IntTypeId, IntTypeId, func(st funcGen.Stack[Value], a, b Value) (Value, error) {
-		return a.(Int) & b.(Int), nil
-	})
 	return m
 }
 
@@ -299,9 +296,6 @@ func Or(fg *FunctionGenerator) OperationMatrix {
 	m := NewOperationMatrix(fg, "|")
 	m.Register(BoolTypeId, BoolTypeId, func(st funcGen.Stack[Value], a, b Value) (Value, error) {
 		return a.(Bool) || b.(Bool), nil
-	})
-	m.Register(IntTypeId, IntTypeId, func(st funcGen.Stack[Value], a, b Value) (Value, error) {
-		return a.(Int) | b.(Int), nil
 	})
 	return m
 }
